@@ -437,12 +437,9 @@ def swar_expr(e, consts):
     raise TranslationError("SWAR kernel: unsupported expression %r" % (e,))
 
 
-# the loop shells of swar.rs are modelled by hand (Scan.swar_loop, swar_name_loop, first_bad): their text is
-# pinned, so a change of a loop shell is a translation failure, not a silent divergence from the model
+# swar.rs: match_tail / match_block are read as Scan.first_bad by the loop translator (loops2v.py): their text is
+# pinned.  The three loop shells themselves are translated (Generated/Loops.v) and proved equal to Scan.v's.
 SWAR_LOOPS = [
-    ('match_uri_vectored', 'fn match_uri_vectored ( bytes : & mut Bytes ) { loop { if let Some ( bytes8 ) = bytes . peek_n :: < ByteBlock > ( BLOCK_SIZE ) { let n = match_uri_char_8_swar ( bytes8 ) ; unsafe { bytes . advance ( n ) ; } if n == BLOCK_SIZE { continue ; } } if let Some ( b ) = bytes . peek ( ) { if is_uri_token ( b ) { unsafe { bytes . advance ( 1 ) ; } continue ; } } break ; } }'),
-    ('match_header_value_vectored', 'fn match_header_value_vectored ( bytes : & mut Bytes ) { loop { if let Some ( bytes8 ) = bytes . peek_n :: < ByteBlock > ( BLOCK_SIZE ) { let n = match_header_value_char_8_swar ( bytes8 ) ; unsafe { bytes . advance ( n ) ; } if n == BLOCK_SIZE { continue ; } } if let Some ( b ) = bytes . peek ( ) { if is_header_value_token ( b ) { unsafe { bytes . advance ( 1 ) ; } continue ; } } break ; } }'),
-    ('match_header_name_vectored', 'fn match_header_name_vectored ( bytes : & mut Bytes ) { while let Some ( block ) = bytes . peek_n :: < ByteBlock > ( BLOCK_SIZE ) { let n = match_block ( is_header_name_token , block ) ; unsafe { bytes . advance ( n ) ; } if n != BLOCK_SIZE { return ; } } unsafe { bytes . advance ( match_tail ( is_header_name_token , bytes . as_ref ( ) ) ) } ; }'),
     ('match_tail', 'fn match_tail ( f : impl Fn ( u8 ) -> bool , bytes : & [ u8 ] ) -> usize { for ( i , & b ) in bytes . iter ( ) . enumerate ( ) { if ! f ( b ) { return i ; } } bytes . len ( ) }'),
     ('match_block', 'fn match_block ( f : impl Fn ( u8 ) -> bool , block : ByteBlock ) -> usize { for ( i , & b ) in block . iter ( ) . enumerate ( ) { if ! f ( b ) { return i ; } } BLOCK_SIZE }'),
 ]
@@ -1256,6 +1253,14 @@ def main():
         return text
 
     gen("Iter.v", iterv)
+
+    def loopsv():
+        import loops2v
+        text, errs = loops2v.generate({m: toks("src/simd/%s.rs" % m) for m in ("swar", "sse42", "avx2", "neon")})
+        errors.extend("Loops.v: " + e for e in errs)
+        return text
+
+    gen("Loops.v", loopsv)
 
     coqdir = os.path.dirname(os.path.abspath(outdir))
 
